@@ -45,7 +45,7 @@ def _gen_shard(arg):
 def _gen_shard0(arg):
     tier, shard, nshards = arg
     r = run_tlc('Gen_Datatypes', 'Gen_Datatypes_rt.cfg', workers=1, timeout=1100,
-                env={'DT_TIER': tier, 'DT_SHARD': shard, 'DT_NSHARDS': nshards,
+                env={'DT_TIER': 'r-' + tier, 'DT_SHARD': shard, 'DT_NSHARDS': nshards,   # the catalogue with format strings / units
                      'JAVA_TOOL_OPTIONS': '-XX:ParallelGCThreads=2'})
     if r.violated or not r.ok:
         raise MachineryError(f'Gen_Datatypes(rt) shard {shard}: {r.violated or r.error}\n{r.out[-2500:]}')
